@@ -83,6 +83,8 @@ def _ev(nodes, inputs, d, memo):
         return getattr(A(d['a']), d['m'])
     if n == 'pipe':
         return FUNCS[d['f']](A(d['a']), *[A(x) for x in d['args']])
+    if n == 'bindk':
+        return FUNCS['addk'](x=A(d['a']), k=A(d['k']))
     if n == 'where':
         return A(d['x']) if A(d['c']) else A(d['y'])
     if n == 'help':
@@ -232,7 +234,7 @@ class RxWorld:
                     return {'input': rng.choice(cands)}
             return {'const': {'int': rng.choice([1, 2, 3, 4]), 'str': rng.choice(['ab', 'z']), 'list': [1, 2], 'bool': True,
                               'dict': {'a': 1}}.get(t, 1)}
-        kind = weighted(rng, [('bin', 6), ('cmp', 2), ('un', 2), ('idx', 2), ('slice', 1), ('meth', 2), ('attr', 0.7), ('pipe', 2),
+        kind = weighted(rng, [('bin', 6), ('cmp', 2), ('un', 2), ('idx', 2), ('slice', 1), ('meth', 2), ('attr', 0.7), ('pipe', 2), ('bindk', 1),
                               ('where', 2), ('help', 4), ('strbin', 1), ('listbin', 1)])
         if kind == 'bin':
             op = rng.choice(sorted(BIN_INT))
@@ -303,6 +305,11 @@ class RxWorld:
             if a is None:
                 return None
             return {'n': 'attr', 'a': a, 'm': rng.choice(['real', 'imag', 'numerator']), 't': 'int'}
+        if kind == 'bindk':
+            a, k_ = pick('int'), operand('int')
+            if a is None:
+                return None
+            return {'n': 'bindk', 'a': a, 'k': k_, 't': 'int'}
         if kind == 'pipe':
             t = rng.choice(['int', 'list', 'dict'])
             a = pick(t)
@@ -501,6 +508,9 @@ class RxWorld:
                     e = getattr(B(d['a']), d['m'])
                 elif n == 'pipe':
                     e = B(d['a']).rx.pipe(FUNCS[d['f']], *[B(x) for x in d['args']])
+                elif n == 'bindk':
+                    # a function bound by keyword to whole expressions, used as the root of a new expression
+                    e = param.rx(param.bind(FUNCS['addk'], x=B(d['a']), k=B(d['k'])))
                 elif n == 'where':
                     e = B(d['c']).rx.where(B(d['x']), B(d['y']))
                     e = param.rx(e)
